@@ -42,6 +42,16 @@ structure Repetition where
   seq : Seq
 deriving Repr, Inhabited
 
+/-- apply a function to every expression field of a sequence / repetition -/
+def Seq.mapExpr (f : Expr → Expr) : Seq → Seq
+  | .constant m => .constant (f m)
+  | .arithmetic i d => .arithmetic (f i) (f d)
+  | .geometric r => .geometric (f r)
+  | .closedForm s p n => .closedForm (s.map f) (p.map f) (f n)
+  | .custom t i => .custom (f t) (f i)
+
+def Repetition.mapExpr (f : Expr → Expr) (r : Repetition) : Repetition := ⟨f r.count, r.seq.mapExpr f⟩
+
 inductive Status | inconclusive | satisfied | violated
 deriving DecidableEq, Repr, Inhabited
 
